@@ -725,6 +725,17 @@ def _np_outer(a, b):
     raise Unsupported('np.outer')
 
 
+def _np_expand_dims(a, axis):
+    if not isinstance(a, STensor):
+        raise Unsupported('np.expand_dims of %r' % type(a).__name__)
+    if not is_conc(axis):
+        raise Unsupported('symbolic axis')
+    d = axis % (a.ndim + 1)
+    key = [slice(None)] * a.ndim
+    key.insert(d, None)
+    return tget(a, tuple(key))
+
+
 def _np_stack(ts, axis=0):
     t = t_stack(list(ts), axis)
     t.meta['kind'] = 'np'
@@ -819,6 +830,8 @@ def setup_namespaces():
                       'array': _np_array, 'pad': _np_pad, 'clip': _np_clip, 'minimum': _np_minmax('minimum'), 'maximum': _np_minmax('maximum'),
                       'abs': _np_abs, 'ones': _np_ones, 'outer': _np_outer,
                       'stack': _np_stack, 'atleast_2d': _np_atleast_2d, 'repeat': _np_repeat,
+                      'expand_dims': _np_expand_dims, 'newaxis': None,
+                      'int32': 'int32', 'int64': 'int64', 'int_': 'int64', 'float32': 'float32', 'float64': 'float64',
                       'copy': _np_copy, 'sqrt': _np_sqrt, 'ndarray': TY_NDARRAY, 'load': Opaque_('np.load')})
     PYWT_NS = NS('pywt', {'dwt_coeff_len': _dwt_coeff_len, 'Wavelet': TY_WAVELET})
 
@@ -992,6 +1005,27 @@ def _minmax(is_min):
     return f
 
 
+def _getattr(it, o, k, *d):
+    from .interp import Raised
+    try:
+        return it.getattr(o, k)
+    except Raised as r:
+        if d and r.kind == 'AttributeError':
+            return d[0]
+        raise
+
+
+def _hasattr(it, o, k):
+    from .interp import Raised
+    try:
+        it.getattr(o, k)
+        return True
+    except Raised as r:
+        if r.kind == 'AttributeError':
+            return False
+        raise
+
+
 def _truth(v):
     if isinstance(v, (z3.BoolRef, z3.ArithRef)):
         return ctx().decide(v if isinstance(v, z3.BoolRef) else I(v) != 0)
@@ -1038,6 +1072,7 @@ def builtins(it):
          'zip': lambda *a: list(zip(*a)), 'dict': _dict, 'int': lambda v: v, 'float': lambda v: v,
          'str': str, 'max': _minmax(False), 'min': _minmax(True), 'abs': _abs, 'print': lambda *a, **k: None,
          'True': True, 'False': False, 'None': None,
+         'setattr': lambda o, k, v: obj_setattr(it, o, k, v), 'getattr': lambda o, k, *d: _getattr(it, o, k, *d), 'hasattr': lambda o, k: _hasattr(it, o, k),
          'slice': slice, 'Ellipsis': Ellipsis, 'id': id, 'type': lambda v: type(v), 'map': lambda f, *xs: [it.call_value(f, list(a), {}) for a in zip(*xs)],
          'enumerate': lambda xs, start=0: [(start + k, v) for k, v in enumerate(_list(xs) if not isinstance(xs, (list, tuple)) else xs)],
          'reversed': lambda xs: list(reversed(_list(xs) if not isinstance(xs, (list, tuple)) else list(xs))),
